@@ -298,6 +298,30 @@ pub fn cases(tier: &str, seed: u64, focus: &str) -> Vec<EncCase> {
         }
     }
 
+    // (3c) exact fits of the largest listed symbol: digits / letters / bytes that fill a size exactly, one less, one more
+    if focus != "C10" {
+        for (i, s) in g.sizes.clone().iter().enumerate() {
+            let cap = capacity_of(*s);
+            if cap > 400 && !thorough && i % 3 != 0 {
+                continue;
+            }
+            for (class, len) in [(Class::Digits, 2 * cap), (Class::Digits, 2 * cap - 1), (Class::Digits, 2 * cap + 1), (Class::Upper, cap * 3 / 2),
+                                 (Class::High, cap.saturating_sub(2)), (Class::Mixed, cap)] {
+                if len > 1555 && class == Class::High {
+                    continue;
+                }
+                let d = class_string(&mut rng, class, len);
+                let mut list = vec![*s];
+                if rng.chance(1, 2) && i > 0 {
+                    list.push(g.sizes[rng.below(i)]);
+                }
+                let mut order = [0u8, 1, 2, 3];
+                order.swap(0, rng.below(4));
+                out.push(EncCase { order, stratum: "exactFit", input: d, modes: if rng.chance(2, 3) { 63 } else { g.modes(&mut rng, focus) }, list, macros: true, fnc1: false, eci: -1 });
+            }
+        }
+    }
+
     // (4) envelope strings
     let mut bodies: Vec<Vec<u8>> = vec![vec![], b"A".to_vec(), b"12".to_vec(), b"ABC123".to_vec()];
     for s in all_strings(&SIGMA12, 2) {
